@@ -15,7 +15,13 @@ var lexAlphabet = []string{"a", " ", `"`, `\`, "#", "{", "}", "$", "\t", `\n`, "
 // lexExtra: single-symbol classes outside the alphabet that the code treats
 // specially: U+00A0 (blank for strings.TrimSpace, not for the lexer's isSpace)
 // and the other two escapes quoteString knows.
-var lexExtra = []string{"\u00a0", `\t`, `\r`, "a\u00a0"}
+var lexExtra = []string{"\u00a0", `\t`, `\r`, "a\u00a0",
+	// second wave (lexical layer): characters that look like white space or are
+	// invisible but are ordinary token characters for the lexer, a literal CR,
+	// an invalid UTF-8 byte; alone and next to a letter.
+	"\f", "\v", "\x00", "\u0085", "\u2028", "\u3000", "\u200b", "\ufeff", "\x1a", "\x7f", "\r", "\xff",
+	"a\fb", "a\vb", "a\x00b", "a\u0085b", "a\u2028b", "a\ufeffb", "\ufeffa", "a\ufeff", "a\rb", "a\r", "a\xffb", "a\xff", "a\f", "\fa",
+}
 
 func lexStrings(k int) []string {
 	out := []string{""}
